@@ -56,6 +56,11 @@ def reg_stream():
                         "registry: the REAL InvalidationRegistry (private instance) through arbitrary registration histories (macro-like once-only registrations in any order interleaved with requests; free histories with re-registration under other metadata, replaced callbacks, shared tags/events/dependencies, undeclared requests, clear()) vs Cachelito.Registry.run; per operation the return value and the set of callbacks that really ran",
                         r"c[1-9]\d*:|f1:")
 
+def stats_stream():
+    return lines_stream("stats_diff", "stats", ["gen", "{seed}", "{n}"], 3000, 60000,
+                        "statistics registry: the REAL process-global stats_registry + CacheStats through arbitrary histories (macro-like once-only registration of each cache's own cell followed by recordings; free histories with re-registration under another cell, one cell under two names, record_hit/record_miss/reset on the cells, get (snapshot) / get_ref (pointer identity) / reset of registered and unknown names, list, clear) vs Cachelito.StatsReg.run; per operation the returned counters, total_accesses, hit/miss rate bits, flag, name list",
+                        r"s:\d|r:\d|f1")
+
 def counters_stream():
     return {"kind": "static", "what_kind": "counters", "nontrivial": [],
             "what": "static check of the atomicity assumption on the CURRENT source: every update of CacheStats' hit / miss counters is a single fetch_add (reset stores 0), nobody else writes them"}
@@ -181,7 +186,7 @@ PROPS = {
         "assumptions": ["frequency_weight > 0", "scores below f64::MAX / hit counters below u64::MAX"],
     },
     "C09": {
-        "lean_modules": ["Cachelito.Props.C09"],
+        "lean_modules": ["Cachelito.Props.C09", "Cachelito.Props.C09c"],
         "streams": [macro_stream(nontrivial=["c09-call"]),
                     sched_stream(nontrivial=["c09-concurrent-run"], quick=(6, 8, 80), what="L3 calls-only programs on PLAIN Result functions with an impure body (one thread's calls succeed, the others' fail for the same arguments) under the deterministic scheduler: an Err is never served from the cache, and once an Ok-storing call has returned every call started later is served without running the body (a failing call that finishes late does not disturb the stored Ok)")],
         "monitors": ["C09"],
@@ -192,7 +197,7 @@ PROPS = {
         "assumptions": ["return type spelled Result<..> or std::result::Result<..>"],
     },
     "C10": {
-        "lean_modules": ["Cachelito.Props.C10"],
+        "lean_modules": ["Cachelito.Props.C10", "Cachelito.Props.C09c"],
         "streams": [macro_stream(nontrivial=["c10-call"])],
         "monitors": ["C10"],
         "rule": "generated call histories on real generated functions with logged cache_if predicates answering from a script; non-trivial = a call of a function with cache_if",
@@ -255,7 +260,7 @@ PROPS = {
         "design_ref": "DESIGN.md §7 C20", "assumptions": ["the async runtime polls the future only through its public poll interface"],
     },
     "C18": {
-        "lean_modules": ["Cachelito.Props.C18"],
+        "lean_modules": ["Cachelito.Props.C18", "Cachelito.Props.C18f"],
         "streams": [sched_stream(nontrivial=["nested-acquisition", "concurrent-call"]), hammer_stream(), static_stream()],
         "monitors": ["C18"],
         "rule": "scheduled runs of 2-3 real threads (calls overflowing a hot cache, group and conditional invalidations) followed by quiescent dumps and a 5-call sequential probe; non-trivial = a run with nested acquisitions or concurrent calls; distinct by (schedule, event trace)",
@@ -265,9 +270,9 @@ PROPS = {
         "design_ref": "DESIGN.md §7 C18", "assumptions": ["DashMap operations are linearizable"],
     },
     "C15": {
-        "lean_modules": ["Cachelito.Props.C15", "Cachelito.Props.C15b", "Cachelito.Props.C15c"],
+        "lean_modules": ["Cachelito.Props.C15", "Cachelito.Props.C15b", "Cachelito.Props.C15c", "Cachelito.Props.C15r"],
         "streams": [core_stream(nontrivial=["hit", "expiry"]), macro_stream(nontrivial=["stats-get", "stats-reset", "hit"]),
-                    sched_stream(nontrivial=["quiescent-stats-checked"], quick=(6, 8, 50)), hammer_stream(), counters_stream()],
+                    sched_stream(nontrivial=["quiescent-stats-checked"], quick=(6, 8, 50)), hammer_stream(), counters_stream(), stats_stream()],
         "monitors": ["C15"],
         "rule": "L1: counters in every state dump; L2: stats_registry::get(name) after every call, get/reset by name incl. unknown names; non-trivial = hit, expiry-as-miss, stats query or reset",
         "level_text": "Lean theorems (sequential): every lookup bumps exactly one counter, hits iff it returned a value (an expired entry is a miss), nothing else touches the counters, hits+misses = number of lookups for every history. Tied to the code by the counters in every L1 state dump and by the registry's per-name statistics after every L2 call. Concurrent part: in scheduled runs of real threads (incl. lookups of expired entries racing with each other and with stores) hits+misses at quiescence must equal the number of completed calls and hits the number of calls served from the cache; and (C15c) in the interleaving model the counters equal the number of counted lookups at every point of every schedule and are exact at quiescence, hits = lookups that returned a value (fetch_add atomicity is assumed).",
